@@ -105,6 +105,56 @@ func reuse(shape []int, ck, to, failAt int) (problems []string) {
 	return problems
 }
 
+// scanDriver is the recording driver with a statement scanner of its own (like the SQLite and MySQL
+// drivers have): the executor must take the file's statements from it.
+type scanDriver struct{ *mighelp.Driver }
+
+func (scanDriver) ScanStmts(in string) ([]*migrate.Stmt, error) {
+	return (&migrate.Scanner{ScannerOptions: migrate.ScannerOptions{MatchBegin: true}}).Scan(in)
+}
+
+// compound: a file whose middle statement is a BEGIN ... END block that only the driver's scanner keeps
+// whole; the failAt-th execution fails once, fresh executors re-run until nothing is pending. Every
+// statement (as the driver's scanner yields them) is executed whole, in order, successfully exactly once.
+func compound(failAt int) (problems []string) {
+	bad := func(format string, a ...any) { problems = append(problems, fmt.Sprintf(format, a...)) }
+	body := "S_1_1;\nCREATE TRIGGER tr AFTER INSERT ON t BEGIN S_a; S_b; END;\nS_1_3;\n"
+	dir, err := mighelp.Dir(map[string]string{"1_f.sql": body, "2_f.sql": "S_2_1;\n"})
+	if err != nil {
+		return []string{"harness: " + err.Error()}
+	}
+	want := []string{"S_1_1;", "CREATE TRIGGER tr AFTER INSERT ON t BEGIN S_a; S_b; END;", "S_1_3;", "S_2_1;"}
+	store := mighelp.NewStore()
+	var got []string
+	calls := 0
+	drv := scanDriver{&mighelp.Driver{}}
+	drv.OnExec = func(q string) error {
+		calls++
+		if calls == failAt {
+			return errInjected
+		}
+		got = append(got, q)
+		return nil
+	}
+	for k := 0; k < 4; k++ {
+		ex, err := migrate.NewExecutor(drv, dir, store)
+		if err != nil {
+			return []string{"harness: " + err.Error()}
+		}
+		err = ex.ExecuteN(context.Background(), 0)
+		if errors.Is(err, migrate.ErrNoPendingFiles) || (err == nil && k > 0) {
+			break
+		}
+	}
+	if strings.Join(got, "|") != strings.Join(want, "|") {
+		bad("driver with a statement scanner of its own, execution %d failing once: successful executions %q, want each statement of the driver's scanner once, in order: %q", failAt, got, want)
+	}
+	if r, ok := store.Revs["1"]; !ok || r.Applied != 3 || r.Total != 3 {
+		bad("revision of file 1 is %+v, want 3/3 (three statements as the driver's scanner splits the file)", r)
+	}
+	return problems
+}
+
 type attempt struct {
 	run, file, stmt int
 	ok              bool
@@ -388,7 +438,7 @@ func Run(r *report.Run) {
 	if r.Tier == "thorough" {
 		bound = 3
 	}
-	r.Rule = "every directory shape (1..3 files x 1..3 statements; any subset of the files being checkpoints) x every placement of <=bound faults over the choice points {ExecContext: ok/fail, WriteRevision: ok/fail-without-persist} and, in the crash alphabet, additionally {die before, die after} at both kinds of point, followed by clean re-runs; plus a reused-executor slice: one Executor value runs ExecuteTo(v) for every version v and then ExecuteN until nothing is pending, over every checkpoint subset, without a fault and with the k-th statement execution failing once, for every k: statements, results and final history equal those of a program building a fresh Executor per call, and without checkpoints every statement runs exactly once, in order; real migrate.Executor over a recording driver/store; non-trivial = execution with >=1 injected fault; distinct = (shape, checkpoint, alphabet, choice list)"
+	r.Rule = "every directory shape (1..3 files x 1..3 statements; any subset of the files being checkpoints) x every placement of <=bound faults over the choice points {ExecContext: ok/fail, WriteRevision: ok/fail-without-persist} and, in the crash alphabet, additionally {die before, die after} at both kinds of point, followed by clean re-runs; plus a reused-executor slice: one Executor value runs ExecuteTo(v) for every version v and then ExecuteN until nothing is pending, over every checkpoint subset, without a fault and with the k-th statement execution failing once, for every k: statements, results and final history equal those of a program building a fresh Executor per call, and without checkpoints every statement runs exactly once, in order; plus a driver-scanner slice: a recording driver that has a statement scanner of its own (BEGIN ... END blocks kept whole) over a file holding such a block, no fault and each single fault position: the statements are the driver scanner's, whole, once, in order; real migrate.Executor over a recording driver/store; non-trivial = execution with >=1 injected fault; distinct = (shape, checkpoint, alphabet, choice list)"
 	r.Assumptions = []string{
 		"a failed revision write persists nothing; a simulated process death freezes both stores (deferred code may run but cannot write)",
 		"statement texts are unique per directory so the recording driver can identify them",
@@ -471,6 +521,13 @@ func Run(r *report.Run) {
 		}
 	}
 	r.Set("reused_executor_cases", reused)
+	// driver-scanner slice: the compound-statement file, no fault and every single fault position.
+	for failAt := 0; failAt <= 4; failAt++ {
+		r.Case(fmt.Sprintf("compound|%d", failAt), true)
+		if problems := compound(failAt); len(problems) > 0 {
+			r.Violate("", fmt.Sprintf("compound statement, fail_at=%d: %s", failAt, strings.Join(problems, " | ")), Case{Shape: []int{3, 1}, To: -1, FailAt: failAt})
+		}
+	}
 	var tot explore.Stats
 	nout := 0
 	for i := range stats {
@@ -497,6 +554,15 @@ func Replay(r *report.Run, raw json.RawMessage) {
 		return
 	}
 	c := v.Case
+	if c.To < 0 {
+		problems := compound(c.FailAt)
+		r.Case(fmt.Sprint(c), true)
+		r.Case(fmt.Sprint(c)+"'", true)
+		if len(problems) > 0 {
+			r.Violate("", strings.Join(problems, " | "), c)
+		}
+		return
+	}
 	if c.To > 0 {
 		problems := reuse(c.Shape, c.Ck, c.To, c.FailAt)
 		r.Case(fmt.Sprint(c), true)
